@@ -285,8 +285,22 @@ let f8_family (k : bool -> unit_in list -> unit) =
       [ 1; 2; 4; 8 ])
     [ 2; 3; 4; 5 ]
 
+(* Every shard process regenerates the whole stream and the driver keeps only the cases with
+   index mod nshards = shard. Evaluating the model (and printing the case) only for those is a pure
+   optimisation: the driver ignores the strings of the other cases. The counter mirrors the driver's. *)
+let shard, nshards =
+  match Array.to_list Sys.argv with
+  | _ :: "gen" :: _ :: _ :: _ :: a :: b :: _ -> (try int_of_string a, int_of_string b with _ -> 0, 1)
+  | _ -> 0, 1
+let ctr = ref 0
+let lazy_emit (emit : emit) (case : unit -> string) (f : unit -> string * string) =
+  (if !ctr mod nshards = shard then begin
+     let c = case () in let (d, r) = f () in emit c d r
+   end else emit "" "" "");
+  incr ctr
+
 let run_case stream emit be units =
-  both emit (case_line stream be units) (fun dbg -> eval dbg be units)
+  lazy_emit emit (fun () -> case_line stream be units) (fun () -> (eval true be units, eval false be units))
 
 (* cases whose only purpose is the no-panic clause: the harness prints `nopanic` unless gimli panics *)
 let nopanic_family r n (k : bool -> unit_in list -> unit) =
@@ -378,15 +392,16 @@ let () =
               else { version; fmt64 = rand_bool r; asz; lp; ll = []; rl = [ List.map range_of_loc l ] } in
             let be = rand_bool r in
             let exp = "err " ^ Errnames.name e in
-            (* the model must agree with the theorem's value *)
-            if eval true be [ u ] <> exp || eval false be [ u ] <> exp then begin
-              prerr_endline ("SELFCHECK FAILED (rejects): " ^ case_line "c16.rej" be [ u ]); exit 3 end;
-            emit (case_line "c16.rej" be [ u ]) exp exp
+            lazy_emit emit (fun () -> case_line "c16.rej" be [ u ]) (fun () ->
+              (* the model must agree with the theorem's value *)
+              if eval true be [ u ] <> exp || eval false be [ u ] <> exp then begin
+                prerr_endline ("SELFCHECK FAILED (rejects): " ^ case_line "c16.rej" be [ u ]); exit 3 end;
+              (exp, exp))
         | _ -> ()
       done);
   register "c16.nopanic" ~doc:"no-panic oracle: StartLength sums at the u64/i64 boundary, every odd address size with a BaseAddress entry; expected is the fixed token"
     (fun ~seed ~n emit ->
       let r = mk_rng (seed + 991) in
       nopanic_family r n (fun be us ->
-        emit (case_line "c16.nopanic" be us) "nopanic" "nopanic"))
+        lazy_emit emit (fun () -> case_line "c16.nopanic" be us) (fun () -> ("nopanic", "nopanic"))))
 let init () = ()
